@@ -20,6 +20,17 @@ import YaclibModel.Proofs.PipelineAcct5
 import YaclibModel.Proofs.PipelineSpec
 import YaclibModel.Extracted.Kernels
 import YaclibModel.Model.Skeletons
+import YaclibModel.Proofs.UniqueOwn
+import YaclibModel.Props.C01
+import YaclibModel.Props.C06
+import YaclibModel.Props.C07
+import YaclibModel.Props.C08
+import YaclibModel.Props.C09
+import YaclibModel.Props.C11
+import YaclibModel.Props.C13
+import YaclibModel.Props.C14
+import YaclibModel.Props.C15
+import YaclibModel.Props.C16
 
 namespace Yaclib.Props.C03
 open Yaclib Yaclib.Pipeline Yaclib.Extracted
